@@ -11,6 +11,7 @@ import (
 	"os"
 	"path"
 	"strconv"
+	"strings"
 	"time"
 
 	"github.com/ava-labs/avalanchego/ids"
@@ -65,16 +66,51 @@ func GetPort(uri string) (string, error) {
 	return purl.Port(), err
 }
 
-func FormatBalance(bal uint64) string {
-	return strconv.FormatFloat(float64(bal)/math.Pow10(int(consts.Decimals)), 'f', int(consts.Decimals), 64)
+// balanceUnit is the number of base units in one token (10^Decimals).
+func balanceUnit() uint64 {
+	unit := uint64(1)
+	for i := 0; i < int(consts.Decimals); i++ {
+		unit *= 10
+	}
+	return unit
 }
 
+// FormatBalance formats [bal] (in base units) as a decimal token amount
+// with exactly [consts.Decimals] fractional digits.
+func FormatBalance(bal uint64) string {
+	unit := balanceUnit()
+	return fmt.Sprintf("%d.%0*d", bal/unit, int(consts.Decimals), bal%unit)
+}
+
+// ParseBalance parses a decimal token amount with at most [consts.Decimals]
+// fractional digits into base units.
 func ParseBalance(bal string) (uint64, error) {
-	f, err := strconv.ParseFloat(bal, 64)
+	whole, frac, _ := strings.Cut(bal, ".")
+	if len(whole) == 0 && len(frac) > 0 {
+		whole = "0"
+	}
+	wholeUnits, err := strconv.ParseUint(whole, 10, 64)
 	if err != nil {
 		return 0, err
 	}
-	return uint64(f * math.Pow10(int(consts.Decimals))), nil
+	if len(frac) > int(consts.Decimals) {
+		return 0, fmt.Errorf("%w: more than %d fractional digits", strconv.ErrSyntax, consts.Decimals)
+	}
+	fracUnits := uint64(0)
+	if len(frac) > 0 {
+		fracUnits, err = strconv.ParseUint(frac, 10, 64)
+		if err != nil {
+			return 0, err
+		}
+		for i := len(frac); i < int(consts.Decimals); i++ {
+			fracUnits *= 10
+		}
+	}
+	unit := balanceUnit()
+	if wholeUnits > (math.MaxUint64-fracUnits)/unit {
+		return 0, fmt.Errorf("%w: balance overflows uint64", strconv.ErrRange)
+	}
+	return wholeUnits*unit + fracUnits, nil
 }
 
 func Repeat[T any](v T, n int) []T {
